@@ -23,13 +23,13 @@ type corruptCase struct {
 }
 
 var hostileNumbers = []string{"-1", "-0", "2147483647", "2147483648", "-2147483649", "9223372036854775807", "9223372036854775808", "18446744073709551616", "123456789012345678901234567890", "+5", "0x10", "1e3", "--3", "", "١٢"}
-var hostileWords = []string{"XYZ", "MOV", "MOV.", "MOV.Q", ".I", "DAT.F.F", "ORG", "END", "org", "end", "START", "LDP.A", "NOP.B", "MUL.X", "SEQ.I", "mov.i", ";", ",", "#", "$", "@", "<", ">", "*", "{", "}", "%", "\x00", "\r", "\xff", "\x1a", " ", " ", "\v", "\f"}
+var hostileWords = []string{"\u212a", "\u0130", "\u212a\u212a\u212a\u212a;", "\u0130\u0130\u0130;c", "MOV.\u0130", "D\u0130V.F", "\u017f", "XYZ", "MOV", "MOV.", "MOV.Q", ".I", "DAT.F.F", "ORG", "END", "org", "end", "START", "LDP.A", "NOP.B", "MUL.X", "SEQ.I", "mov.i", ";", ",", "#", "$", "@", "<", ">", "*", "{", "}", "%", "\x00", "\r", "\xff", "\x1a", " ", " ", "\v", "\f"}
 
 // mutateText applies one corruption at token or byte level.
 func mutateText(t *rapid.T, text string, m int64) string {
 	lines := strings.Split(text, "\n")
 	pickLine := func() int { return rapid.IntRange(0, len(lines)-1).Draw(t, "line") }
-	switch rapid.IntRange(0, 13).Draw(t, "mut") {
+	switch rapid.IntRange(0, 15).Draw(t, "mut") {
 	case 0: // delete a field
 		i := pickLine()
 		f := strings.Fields(lines[i])
@@ -110,6 +110,22 @@ func mutateText(t *rapid.T, text string, m int64) string {
 		i := rapid.IntRange(0, len(lines)).Draw(t, "at")
 		d := rapid.SampledFrom([]string{",", " , ", ",,", "\t,\t"}).Draw(t, "sep")
 		lines = append(lines[:i], append([]string{d}, lines[i:]...)...)
+	case 14: // a very long line (longer than common buffer sizes)
+		i := pickLine()
+		n := rapid.SampledFrom([]int{4096, 65535, 65536, 65537, 70000, 140000}).Draw(t, "longlen")
+		switch rapid.IntRange(0, 2).Draw(t, "longkind") {
+		case 0:
+			lines[i] = lines[i] + " ;" + strings.Repeat("c", n)
+		case 1:
+			lines[i] = lines[i] + strings.Repeat(" ", n)
+		default:
+			lines[i] = strings.Repeat(" ", n) + lines[i]
+		}
+	case 15: // characters whose lower-case form has a different byte length, before a comment
+		i := pickLine()
+		k := rapid.IntRange(1, 6).Draw(t, "nshrink")
+		ch := rapid.SampledFrom([]string{"\u212a", "\u0130"}).Draw(t, "shrink")
+		lines[i] = lines[i] + " " + strings.Repeat(ch, k) + rapid.SampledFrom([]string{";", " ;", ";c", " ; loop"}).Draw(t, "shrinktail")
 	case 13: // swap dialect features: add or strip a modifier
 		i := pickLine()
 		f := strings.Fields(lines[i])
@@ -234,7 +250,7 @@ func judgeCorruptCase(c corruptCase, rec *hx.Rec) string {
 	return ""
 }
 
-const c10Rule = "rapid prints a canonical load file (either dialect, occasionally the other dialect's layout) and applies 1..5 corruptions: field deleted/duplicated/transposed/replaced by out-of-range, negative, huge or malformed numbers or by unknown mnemonics, modifiers, modes and control bytes; ORG/END inserted anywhere with no, negative, too large, non-numeric or two arguments; truncation at any byte; newline removed; NUL/CR/0xFF/^Z/NBSP injected; byte deleted; line duplicated/deleted; separator-only line; modifier added/stripped; M in {7,8000,8192}. ParseLoadFile must not panic and either fails or returns entry inside the code (or 0 when empty), fields < M, '88: only legal '88 rows with the implied modifier, and exactly as many instructions as an independent line splitter counts non-blank, non-comment, non-directive lines before the end marker. Non-trivial: accepted after corruption, or rejected at a single corruption; distinct by case hash."
+const c10Rule = "rapid prints a canonical load file (either dialect, occasionally the other dialect's layout) and applies 1..5 corruptions: field deleted/duplicated/transposed/replaced by out-of-range, negative, huge or malformed numbers or by unknown mnemonics, modifiers, modes and control bytes; ORG/END inserted anywhere with no, negative, too large, non-numeric or two arguments; truncation at any byte; newline removed; NUL/CR/0xFF/^Z/NBSP injected; byte deleted; line duplicated/deleted; separator-only line; modifier added/stripped; a line padded beyond 64 KiB; characters whose lower-case form is shorter (U+212A, U+0130) before a comment; M in {7,8000,8192}. ParseLoadFile must not panic and either fails or returns entry inside the code (or 0 when empty), fields < M, '88: only legal '88 rows with the implied modifier, and exactly as many instructions as an independent line splitter counts non-blank, non-comment, non-directive lines before the end marker. Non-trivial: accepted after corruption, or rejected at a single corruption; distinct by case hash."
 
 func TestC10(t *testing.T) {
 	hx.Run(t, hx.Prop[corruptCase]{
